@@ -18,7 +18,26 @@
      P <n> REP <code point below 256>   the text parsed by the model of the grammar (FilterSyntax.parse, enum
                                         references resolved to A): prints  OK fexp  (same encoding as above) or REJECT
      K <n> REP <code point>             same through FilterSyntax.compile (strip, empty filter, lone bang)
-     Q fexp                             prints  <wf_syntax 0 or 1> <n> REP <code point>  : FilterSyntax.print  *)
+     Q fexp                             prints  <wf_syntax 0 or 1> <n> REP <code point>  : FilterSyntax.print
+   export / import, freeze / thaw (Log/Export.v).  hex = lower-case hex of a byte string, "-" when empty;
+   hex16 = the 64 bits of a float in 16 hex digits; dec = decimal integer of any size:
+     yv     = N | T | F | I dec | R hex16 | S hex | B <p|j|r|a> hex | G <h|s> hex | C <2|3|4|q> <n> REP hex16
+              | L <l|t> <n> REP yv | M <n> REP [hex yv] | D hex16 | U hex
+     msg    = hex <nlists> REP [hex <nblocks> REP [<nvars> REP [hex yv]]] <- | dec> yv(dict: meta) <0|1 dropped> <0|1 synthetic>
+              <I|O> dec(flags) <p|j|r|a> hex(extra) <l|t> <n> REP yv(acks)
+     lentry = <- | S hex>(region name) <- | G hex>(agent id) <- | S hex>(summary cache) yv(dict: meta) <U msg | E yv> hex(summ oracle)
+     tables = ; REP [hex16 hex] ; REP [hex16 hex]     repr(float) and date-string tables (the parsers use their inverses)
+   commands:
+     XM msg tables        prints  <wf_msg><plain_msg><wfn> | yv(to_dict true) | hex(notation) | msg-or-ERR(from_dict . to_dict)
+                                  | msg-or-ERR(from_dict . parse_notation . format_notation) | yv(to_dict false) | msg(norm_msg)
+     XD yv                prints  msg-or-ERR (Message.from_dict of any value)
+     XV yv tables         prints  hex(notation) | yv(norm) | <plain>
+     XE <n> REP lentry tables
+                          prints per entry, joined by " || ":  <entry_ok><std_meta> | yv-or-ERR(entry_to_dict)
+                                  | lentry-or-ERR(entry_from_dict . entry_to_dict) | lentry-or-ERR(norm_entry)
+     XF <0|1 repickle> <nversions> REP msg <nops> REP op       op = m <i> (the live message now holds version i) | f (freeze)
+                          | o (read name, method, seq) | w (read message)
+                          prints per op, joined by ";":  m: "-"   f: ok|EXC   o: hex hex <-|dec>   w: <version index>|EXC  *)
 let toks : string list ref = ref []
 let next () = match !toks with [] -> failwith "eof" | t :: r -> toks := r; t
 let int_ () = int_of_string (next ())
@@ -133,6 +152,156 @@ let show_res = function
   | Err XKey -> "EXC:KeyError"
 let show_ids l = String.concat "," (List.map (fun c -> string_of_int (int_of_n c)) l)
 
+
+(* ---- export / import, freeze / thaw ---- *)
+let hexval c = match c with
+  | '0'..'9' -> Char.code c - 48 | 'a'..'f' -> Char.code c - 87 | 'A'..'F' -> Char.code c - 55
+  | _ -> failwith "hex"
+let bytes_of_hex (s : string) : n list =
+  if s = "-" then [] else begin
+    let l = ref [] in
+    for i = String.length s / 2 - 1 downto 0 do
+      l := n_of_int (hexval s.[2*i] * 16 + hexval s.[2*i+1]) :: !l
+    done; !l end
+let hex_of_bytes (l : n list) : string =
+  if l = [] then "-" else String.concat "" (List.map (fun b -> Printf.sprintf "%02x" (int_of_n b)) l)
+let n_of_hex (s : string) : n =
+  let acc = ref N0 in
+  String.iter (fun c -> acc := N.add (N.mul !acc (n_of_int 16)) (n_of_int (hexval c))) s; !acc
+let rec lbits_of_pos (p : positive) : int list = match p with
+  | XH -> [1] | XO q -> 0 :: lbits_of_pos q | XI q -> 1 :: lbits_of_pos q
+let hex_of_n (x : n) : string =
+  let bits = match x with N0 -> [] | Npos p -> lbits_of_pos p in
+  let rec nyb l = match l with
+    | [] -> []
+    | a :: b :: c :: d :: r -> (a + 2*b + 4*c + 8*d) :: nyb r
+    | a :: b :: c :: [] -> [a + 2*b + 4*c]
+    | a :: b :: [] -> [a + 2*b]
+    | a :: [] -> [a] in
+  let s = String.concat "" (List.map (Printf.sprintf "%x") (List.rev (nyb bits))) in
+  String.make (max 0 (16 - String.length s)) '0' ^ s
+let z_of_dec (s : string) : z =
+  let neg = String.length s > 0 && s.[0] = '-' in
+  let acc = ref N0 in
+  String.iter (fun c -> if c <> '-' && c <> '+' then acc := N.add (N.mul !acc (n_of_int 10)) (n_of_int (Char.code c - 48))) s;
+  match !acc with N0 -> Z0 | Npos p -> if neg then Zneg p else Zpos p
+let rec dec_of_n (x : n) : string = match x with
+  | N0 -> ""
+  | _ -> dec_of_n (N.div x (n_of_int 10)) ^ string_of_int (int_of_n (N.modulo x (n_of_int 10)))
+let dec_of_z (x : z) : string = match x with
+  | Z0 -> "0" | Zpos p -> dec_of_n (Npos p) | Zneg p -> "-" ^ dec_of_n (Npos p)
+
+let bcls_ () = match next () with "p" -> BPlain | "j" -> BJank | "r" -> BRaw | "a" -> BArray | t -> failwith ("bcls " ^ t)
+let scls_ () = match next () with "l" -> SList | "t" -> STuple | t -> failwith ("scls " ^ t)
+let hex_ () = bytes_of_hex (next ())
+let rec yv_ () : yv = match next () with
+  | "N" -> YNone
+  | "T" -> YBool true
+  | "F" -> YBool false
+  | "I" -> YInt (z_of_dec (next ()))
+  | "R" -> YFloat (n_of_hex (next ()))
+  | "S" -> YStr (hex_ ())
+  | "B" -> let c = bcls_ () in YBytes (c, hex_ ())
+  | "G" -> let c = (match next () with "h" -> UHippo | _ -> UStd) in YUuid (c, hex_ ())
+  | "C" -> let k = (match next () with "2" -> CVec2 | "3" -> CVec3 | "4" -> CVec4 | _ -> CQuat) in
+    let n = int_ () in YCoord (k, rep n (fun () -> n_of_hex (next ())))
+  | "L" -> let c = scls_ () in let n = int_ () in YSeq (c, rep n yv_)
+  | "M" -> let n = int_ () in YDict (rep n (fun () -> let k = hex_ () in let v = yv_ () in (k, v)))
+  | "D" -> YDate (n_of_hex (next ()))
+  | "U" -> YUri (hex_ ())
+  | t -> failwith ("yv " ^ t)
+let ydict_ () = match yv_ () with YDict m -> m | _ -> failwith "dict expected"
+let msg_ () : msg =
+  let name = hex_ () in
+  let nl = int_ () in
+  let blocks = rep nl (fun () ->
+    let bn = hex_ () in let nb = int_ () in
+    (bn, rep nb (fun () -> let nv = int_ () in rep nv (fun () -> let k = hex_ () in let v = yv_ () in (k, v))))) in
+  let pid = (match next () with "-" -> None | d -> Some (z_of_dec d)) in
+  let meta = ydict_ () in
+  let dr = bool_ () in let sy = bool_ () in
+  let di = (match next () with "I" -> DIn | _ -> DOut) in
+  let fl = z_of_dec (next ()) in
+  let ec = bcls_ () in let ex = hex_ () in
+  let ac = scls_ () in let na = int_ () in let al = rep na yv_ in
+  { m_name = name; m_blocks = blocks; m_packet_id = pid; m_meta = meta; m_dropped = dr; m_synthetic = sy;
+    m_direction = di; m_flags = fl; m_extra_cls = ec; m_extra = ex; m_acks_cls = ac; m_acks = al }
+
+let pr_bcls = function BPlain -> "p" | BJank -> "j" | BRaw -> "r" | BArray -> "a"
+let pr_scls = function SList -> "l" | STuple -> "t"
+let rec pr_yv (b : Buffer.t) (v : yv) : unit =
+  let add s = Buffer.add_string b s; Buffer.add_char b ' ' in
+  match v with
+  | YNone -> add "N"
+  | YBool true -> add "T"
+  | YBool false -> add "F"
+  | YInt z -> add "I"; add (dec_of_z z)
+  | YFloat x -> add "R"; add (hex_of_n x)
+  | YStr s -> add "S"; add (hex_of_bytes s)
+  | YBytes (c, s) -> add "B"; add (pr_bcls c); add (hex_of_bytes s)
+  | YUuid (c, u) -> add "G"; add (match c with UHippo -> "h" | UStd -> "s"); add (hex_of_bytes u)
+  | YCoord (k, xs) -> add "C"; add (match k with CVec2 -> "2" | CVec3 -> "3" | CVec4 -> "4" | CQuat -> "q");
+    add (string_of_int (List.length xs)); List.iter (fun x -> add (hex_of_n x)) xs
+  | YSeq (c, l) -> add "L"; add (pr_scls c); add (string_of_int (List.length l)); List.iter (pr_yv b) l
+  | YDict m -> add "M"; add (string_of_int (List.length m)); List.iter (fun (k, x) -> add (hex_of_bytes k); pr_yv b x) m
+  | YDate x -> add "D"; add (hex_of_n x)
+  | YUri s -> add "U"; add (hex_of_bytes s)
+let pr_msg (b : Buffer.t) (m : msg) : unit =
+  let add s = Buffer.add_string b s; Buffer.add_char b ' ' in
+  add (hex_of_bytes m.m_name);
+  add (string_of_int (List.length m.m_blocks));
+  List.iter (fun (bn, bl) -> add (hex_of_bytes bn); add (string_of_int (List.length bl));
+              List.iter (fun vars -> add (string_of_int (List.length vars));
+                          List.iter (fun (k, v) -> add (hex_of_bytes k); pr_yv b v) vars) bl) m.m_blocks;
+  add (match m.m_packet_id with None -> "-" | Some z -> dec_of_z z);
+  pr_yv b (YDict m.m_meta);
+  add (if m.m_dropped then "1" else "0"); add (if m.m_synthetic then "1" else "0");
+  add (match m.m_direction with DIn -> "I" | DOut -> "O");
+  add (dec_of_z m.m_flags);
+  add (pr_bcls m.m_extra_cls); add (hex_of_bytes m.m_extra);
+  add (pr_scls m.m_acks_cls); add (string_of_int (List.length m.m_acks)); List.iter (pr_yv b) m.m_acks
+let with_buf f = let b = Buffer.create 256 in f b; String.trim (Buffer.contents b)
+let yv_string v = with_buf (fun b -> pr_yv b v)
+let msg_string m = with_buf (fun b -> pr_msg b m)
+let optmsg_string = function Some m -> msg_string m | None -> "ERR"
+
+(* the rest of the line: ; (hex16 hex)* ; (hex16 hex)*  *)
+let tables_ () =
+  let rec split cur acc = function
+    | [] -> List.rev (List.rev cur :: acc)
+    | ";" :: r -> split [] (List.rev cur :: acc) r
+    | w :: r -> split (w :: cur) acc r in
+  let rec pairs = function k :: t :: r -> (String.lowercase_ascii k, bytes_of_hex t) :: pairs r | _ -> [] in
+  let parts = split [] [] !toks in
+  toks := [];
+  let nth_or i = if List.length parts > i then pairs (List.nth parts i) else [] in
+  (nth_or 1, nth_or 2)
+let render tbl = fun (x : n) -> (try List.assoc (hex_of_n x) tbl with Not_found -> [n_of_int 63])
+let unrender tbl = fun (t : n list) ->
+  let rec find = function [] -> None | (k, v) :: r -> if v = t then Some (n_of_hex k) else find r in find tbl
+
+let payload_ () = match next () with
+  | "U" -> PUdp (msg_ ())
+  | "E" -> PEq (yv_ ())
+  | t -> failwith ("payload " ^ t)
+let lentry_ () : lentry * n list =
+  let rn = (match next () with "-" -> None | _ -> Some (hex_ ())) in
+  let aid = (match next () with "-" -> None | _ -> Some (hex_ ())) in
+  let sm = (match next () with "-" -> None | _ -> Some (hex_ ())) in
+  let meta = ydict_ () in
+  let p = payload_ () in
+  let su = hex_ () in
+  ({ le_region_name = rn; le_agent_id = aid; le_summary = sm; le_meta = meta; le_payload = p }, su)
+let pr_lentry (b : Buffer.t) (e : lentry) : unit =
+  let add s = Buffer.add_string b s; Buffer.add_char b ' ' in
+  (match e.le_region_name with None -> add "-" | Some s -> add "S"; add (hex_of_bytes s));
+  (match e.le_agent_id with None -> add "-" | Some s -> add "G"; add (hex_of_bytes s));
+  (match e.le_summary with None -> add "-" | Some s -> add "S"; add (hex_of_bytes s));
+  pr_yv b (YDict e.le_meta);
+  (match e.le_payload with PUdp m -> add "U"; pr_msg b m | PEq v -> add "E"; pr_yv b v)
+let optlentry_string = function Some e -> with_buf (fun b -> pr_lentry b e) | None -> "ERR"
+let b01 b = if b then "1" else "0"
+
 let lop_ () = match next () with
   | "L" -> let i = int_ () in let e = entry_ () in Log (n_of_int i, e)
   | "S" -> (match next () with "+" -> SetFilter (Some (fexp_ ())) | _ -> SetFilter None)
@@ -161,6 +330,61 @@ let () =
           let t = print f in
           print_endline (String.concat " " ((if wf_syntax f then "1" else "0") :: string_of_int (List.length t)
                                             :: List.map (fun c -> string_of_int (int_of_ascii c)) t))
+        | "XM" ->
+          let m = msg_ () in
+          let (rt, dt) = tables_ () in
+          let rreal = render rt and rdate = render dt and preal = unrender rt and pdate = unrender dt in
+          let d = to_dict true m in
+          let nb = notation rreal rdate d in
+          let back = (match of_notation preal pdate nb with Some v -> from_dict v | None -> None) in
+          print_endline (String.concat " | "
+            [ b01 (wf_msg m) ^ b01 (plain_msg m) ^ b01 (wfn (msg_tree m)); yv_string d; hex_of_bytes nb;
+              optmsg_string (from_dict d); optmsg_string back; yv_string (to_dict false m); msg_string (norm_msg m) ])
+        | "XD" -> let v = yv_ () in print_endline (optmsg_string (from_dict v))
+        | "XV" ->
+          let v = yv_ () in
+          let (rt, dt) = tables_ () in
+          print_endline (String.concat " | " [ hex_of_bytes (notation (render rt) (render dt) v); yv_string (norm v); b01 (plain v) ])
+        | "XE" ->
+          let n = int_ () in
+          let es = rep n lentry_ in
+          let (rt, dt) = tables_ () in
+          let rreal = render rt and rdate = render dt and preal = unrender rt and pdate = unrender dt in
+          let summ = fun (p : payload) -> (try List.assoc p (List.map (fun (e, su) -> (e.le_payload, su)) es) with Not_found -> []) in
+          let one (e, _) =
+            let d = entry_to_dict rreal rdate summ e in
+            String.concat " | "
+              [ b01 (entry_ok rreal rdate preal pdate e) ^ b01 (std_meta e.le_payload e.le_meta);
+                (match d with Some v -> yv_string v | None -> "ERR");
+                optlentry_string (match d with Some v -> entry_from_dict preal pdate v | None -> None);
+                optlentry_string (norm_entry summ e) ] in
+          print_endline (String.concat " || " (List.map one es))
+        | "XF" ->
+          let rp = bool_ () in
+          let nv = int_ () in
+          let versions = Array.of_list (rep nv msg_) in
+          let index_of (m : msg) = let r = ref (-1) in Array.iteri (fun i x -> if !r < 0 && x = m then r := i) versions; !r in
+          let pk = (function None -> [n_of_int 78] | Some m -> [n_of_int 1; n_of_int (index_of m)]) in
+          let unpk = (function
+            | [a] when int_of_n a = 78 -> Some None
+            | [a; i] when int_of_n a = 1 -> Some (Some versions.(int_of_n i))
+            | _ -> None) in
+          let cur = ref 0 in
+          let heap = fun (_ : nat) -> versions.(!cur) in
+          let u = ref (u_init heap O) in
+          let dead = ref false in
+          let nops = int_ () in
+          let outs = rep nops (fun () -> match next () with
+            | "m" -> cur := int_ (); "-"
+            | "f" -> (match u_freeze rp pk unpk heap !u with Some u' -> u := u'; "ok" | None -> "EXC")
+            | "o" ->
+              let s = hex_of_bytes (u_get_name heap !u) ^ " " ^ hex_of_bytes (u_get_method heap !u) ^ " " ^
+                      (match u_get_seq heap !u with None -> "-" | Some z -> dec_of_z z) in
+              u := u_touch heap !u; s
+            | "w" -> (match u_msg unpk heap !u with Some m -> string_of_int (index_of m) | None -> "EXC")
+            | t -> failwith ("op " ^ t)) in
+          ignore !dead;
+          print_endline (String.concat ";" outs)
         | t -> print_endline ("?" ^ t)
       with Failure m -> print_endline ("PARSE-ERROR " ^ m))
     done
